@@ -310,8 +310,12 @@ func (s *Swarm[T]) serve(ctx context.Context) {
 
 func (s *Swarm[T]) handleSession(ctx context.Context, sess quic.Connection, src Addr[T], isClient bool) {
 	defer func() {
+		// Remove this session's own entry only: a newer session may have taken the key since.
+		k := sessionKey{addr: src.Key(), outbound: isClient}
 		s.mu.Lock()
-		delete(s.sessCache, sessionKey{addr: src.Key(), outbound: isClient})
+		if s.sessCache[k] == sess {
+			delete(s.sessCache, k)
+		}
 		s.mu.Unlock()
 	}()
 	eg := errgroup.Group{}
